@@ -155,6 +155,44 @@ impl Scenario for C10 {
                 }
             }
         }
+        // key material in the textual forms it is provisioned in (hex of either case, "0x" hex, base64 with
+        // and without padding, base64url), handed over as if those characters were the key bytes: whenever
+        // that is not a valid length for the kind, it is not a key
+        {
+            let seed32 = crate::prng::Rng::new(b.ev_seed()).bytes(32);
+            let pk32 = crate::refimpl::ed25519_public_of_seed(&seed32.clone().try_into().unwrap()).unwrap_or(vec![9u8; 32]);
+            let mut sc = crate::prng::Rng::new(b.ev_seed()).bytes(48);
+            sc[0] &= 0x7f;
+            let comp = crate::refimpl::p384_public_of_scalar(&sc).unwrap_or(vec![2u8; 49]);
+            let std64 = |x: &[u8], pad: bool| -> String {
+                let t: String = b64(x).chars().map(|c| match c { '-' => '+', '_' => '/', o => o }).collect();
+                if pad { format!("{t}{}", "=".repeat((4 - t.len() % 4) % 4)) } else { t }
+            };
+            let materials: Vec<Vec<u8>> = vec![seed32.clone(), [&seed32[..], &pk32].concat(), pk32.clone(), sc.clone(), comp.clone()];
+            for reader in Bk::ALL {
+                let f = reader.family();
+                for m in &materials {
+                    let forms: Vec<String> = vec![hex::encode(m), hex::encode(m).to_uppercase(), format!("0x{}", hex::encode(m)), b64(m), std64(m, false), std64(m, true)];
+                    for form in forms {
+                        for artifact in [Artifact::KeyLocal, Artifact::KeySecret, Artifact::KeyPublic, Artifact::KeyPkeSecret, Artifact::KeyPkePublic] {
+                            let valid_len: &[usize] = match (f, artifact) {
+                                (1, Artifact::KeyLocal) | (2, Artifact::KeyLocal) | (3, Artifact::KeyLocal) | (4, Artifact::KeyLocal) => &[32],
+                                (1, _) => continue, // DER / PEM documents: any text may be one
+                                (2 | 4, Artifact::KeySecret | Artifact::KeyPkeSecret) => &[64],
+                                (2 | 4, _) => &[32],
+                                (3, Artifact::KeySecret | Artifact::KeyPkeSecret) => &[48],
+                                _ => &[49, 97],
+                            };
+                            if valid_len.contains(&form.len()) {
+                                continue;
+                            }
+                            let text = format!("k{f}{}{}", artifact.header(), b64(form.as_bytes()));
+                            b.push(Step::Offer { text: TextRef::Lit { text }, faults: vec![], reader, artifact, expect: Some(false), why: format!("C10:wrong-length-key-accepted:{} characters of textual key material offered as the bytes of {}", form.len(), artifact.name()) });
+                        }
+                    }
+                }
+            }
+        }
         for len in lens {
             if len != 32 {
                 let bytes = crate::prng::Rng::new(b.ev_seed()).bytes(len);
